@@ -10,6 +10,8 @@ def device(rng, **kw):
         d["latency"] = {"kind": "uniform", "lo": 0.0, "hi": rng.choice([0.05, 0.2, 0.5]), "seed": rng.randrange(10 ** 6)}
     if rng.random() < 0.3:
         d["chunk"] = rng.randrange(1, 10 ** 6)
+    elif rng.random() < 0.15:
+        d["split_crlf"] = True             # every line's CR and LF arrive in separate reads
     if rng.random() < 0.15:
         d["restrict_puts"] = {"p": rng.choice([0.3, 1.0]), "seed": rng.randrange(10 ** 6)}       # some PUTs are answered with @RESTRICTED
     if rng.random() < 0.2:
@@ -312,6 +314,8 @@ def api_init(rng, T, recorded=None):
         dev["swallow_first"] = 1
     if rng.random() < 0.3:
         dev["chunk"] = rng.randrange(1, 10 ** 6)
+    elif rng.random() < 0.2:
+        dev["split_crlf"] = True
     lat = dev["latency"]
     healthy = (isinstance(lat, (int, float)) and lat <= 0.5) or (isinstance(lat, dict) and lat["hi"] <= 0.5)
     return {"kind": "api_init", "device": dev, "after": [["dump"], ["close"]], "final_wait": 6, "present": present,
@@ -432,6 +436,8 @@ def conn_check(rng, drops=False, repeat=False):
         dev["drop_at"] = rng.choice([0, 0, 0.0001, 0.05, 0.15, 0.35, round(rng.uniform(0, 3.0), 3)])
     if rng.random() < 0.06 and dev.get("model") is not None:
         dev["model"] = ""                  # a receiver may report an empty model name: that is a model name reply
+    if rng.random() < 0.25:
+        dev["split_crlf"] = True           # a serial line: every reply's CR and LF arrive in separate reads
     spec = {"kind": "conn_check", "device": dev, "zones": zones, "final_wait": 6}
     if repeat:
         spec["repeat"] = 2                 # the check is run twice on the same YncaApi object; the last run is the one judged
